@@ -121,7 +121,7 @@ def gen_history(rng, stats, names=True, max_adds=8):
 class C01(Check):
     pid = 'C01'
     props_mod = 'OmbottModel.Props.C01'
-    tables = ['router', 'routerbuiltin']
+    tables = ['router', 'routerbuiltin', 'routeurl']
     design_ref = '6/C01'
     anchors = ['ombott/router/radidict.py', 'ombott/router/radirouter.py', 'ombott/router/filter_factory.py',
                'ombott/router/parser.py', 'ombott/router/sym_stream.py', 'ombott/ombott.py']
@@ -133,7 +133,12 @@ class C01(Check):
                   'the rule text the handler was registered with, bound to its own filters\' values '
                   '(params_are_rule_names, filter_guard); for every filter environment, rex selectors included, a '
                   'handler is only called when its own rule matches and only with filter answers (get_sound, '
-                  'handler_called_only_on_match); every syntax flavour parses to the same abstract rule (parse_print). Model tied to the code by differential runs of whole registration/lookup histories.')
+                  'handler_called_only_on_match); every syntax flavour parses to the same abstract rule (parse_print). For rule sets that use only plain / int / '
+                  'float / path wildcards the filter environment is no longer a parameter: resolve_eq_rule_by_rule_builtin and '
+                  'filter_guard_builtin state the property over the concrete handlers of Model/RouterBuiltinEnv.lean (an int kwarg is '
+                  'the integer value of the -?\\d+ text at that position, a float kwarg the numeral matched by -?\\d+(\\.\\d+)?, a '
+                  'path kwarg the longest newline-free prefix followed by the literal that follows the wildcard), tied to the live '
+                  'handlers by builtin_env_probes_agree (decide over a regenerated table). Model tied to the code by differential runs of whole registration/lookup histories, half of them replayed with the concrete built-in handlers (router histb).')
     level_note_extra = ('regex filters are a parameter (real handler results shipped per lookup); filters answering '
                         'with a rex selector are outside the completeness/priority theorems (NoSel; soundness holds for '
                         'every environment) and are covered there by correspondence only')
@@ -146,8 +151,10 @@ class C01(Check):
             'length <= 5 over {a / 1 - CR}. A fifth of the histories use the built-in filter pool: path wildcards before '
             'literals made of regex metacharacters (.tar/ +x (1) [a] $ ^ | ? * \\d) continuing afterwards, with decoy '
             'occurrences later in the path; int/float with signs, leading zeros, Unicode digits, exponent-like text; '
-            'plus driver probes of the live int/float/path handlers against the Lean reference semantics.')
-    assumptions = ['in the tree-walk model the filter handlers are a parameter (real handler results and compile errors shipped per lookup); the built-in filters int/float/path are pinned separately: reference semantics Model/RouterBuiltin.lean tied to the live handlers by the regenerated mask/probe tables (builtin_masks_pinned, builtin_probes_agree) and by driver probes on random texts, and the search oracle re-states them from their documentation (Unicode digits included) and compiles user regexes itself',
+            'plus driver probes of the live int/float/path handlers against the Lean reference semantics and against the concrete '
+            'filter environment (router bfilter: value as shipped and characters consumed; Unicode digits, newlines, 15/16/17-digit and '
+            'very long numerals, exponent-notation reprs).')
+    assumptions = ['user regular expressions (re / rex filters) are a parameter of the tree-walk model (real handler results and compile errors shipped per lookup); the built-in filters int/float/path are concrete Lean functions in the `…_builtin` theorems and in the `router histb` lines (Model/RouterBuiltinEnv.lean, tied to the live handlers by builtin_env_probes_agree and by >= 1200 direct probes per run); float(text) is computed for numerals of at most 15 significant digits between 1e-291 and 1e300 (IEEE-754 15-digit round trip, not proved in Lean) and is a parameter beyond; in the remaining (opaque-environment) theorems the built-in filters are pinned separately: reference semantics Model/RouterBuiltin.lean tied to the live handlers by the regenerated mask/probe tables (builtin_masks_pinned, builtin_probes_agree) and by driver probes on random texts, and the search oracle re-states them from their documentation (Unicode digits included) and compiles user regexes itself',
                    're itself (matching of a compiled pattern) is trusted',
                    'rule text contains no CR (the router\'s own wildcard marker; rule_without_marker_ok) and no repeated wildcard name: outside, Python pairs filters and markers wrongly and the model does not follow',
                    'for filters answering with a rex selector (two-pass lookup) only soundness is proved (get_sound, handler_called_only_on_match); which rule wins / 404-completeness there is covered by correspondence (hypothesis NoSel of the other theorems)',
@@ -173,6 +180,9 @@ class C01(Check):
         for _ in range(n):
             ops = gen_history(rng, self.stats)
             run = G.Runner()
+            # half of the histories are replayed by the model with the handlers of int / float / path
+            # computed concretely (`router histb`, Model/RouterBuiltinEnv.lean) instead of shipped
+            run.histb = rng.random() < .5
             try:
                 play(run, ops)
             except core.Hang:
@@ -190,6 +200,7 @@ class C01(Check):
                 if ans.startswith('hit:') and ('=s.' in ans or '=c.' in ans or ':s.' in ans or ':c.' in ans):
                     wild_hit = True
             self._bump('ops', len(run.ops))
+            self._bump('hist-concrete-builtins' if run.histb else 'hist-shipped-filters')
             out.append((run.line(), run.answer(), dict(ops=ops, wild_hit=wild_hit)))
         out += self.corr_builtin(rng, n)
         return out
@@ -221,6 +232,55 @@ class C01(Check):
             self._bump('builtin-' + name + ('-hit' if v is not None else '-miss'))
             out.append(('router builtin %s %s %s' % (core.hs(name), core.hs(conf or ''), core.hs(text)), ans,
                         dict(kind='builtin', filter=name, conf=conf, text=text)))
+        out += self.corr_concrete(rng, n + 300)
+        return out
+
+    CONCRETE_ALPHA = list('0123456789--..e/+x(1)[a]$^|?*a\n') + ['.tar/', 'é', '٣', '۵', '\r', '00', '.0']
+
+    def corr_concrete(self, rng, n):
+        """the live handlers against the *concrete* filter environment the `…_builtin` theorems are
+        stated over (`router bfilter`: value as shipped and characters consumed; Unicode digits,
+        newlines, long numerals, values whose repr uses exponent notation)"""
+        from ombott.router.filter_factory import FilterFactory
+        from harness.tables.routerbuiltin import PATH_CONFS
+        out = []
+        for _ in range(n):
+            name = rng.choice(['int', 'float', 'float', 'path', 'path'])
+            conf = None
+            if name == 'path':
+                conf = rng.choice(PATH_CONFS + ['+x(1)', 'a.', '//', '1', '\n', '-5', '.0', 'é'])
+            elif name == 'int':
+                conf = rng.choice([None, None, ''])
+            text = ''.join(rng.choice(self.CONCRETE_ALPHA) for _ in range(rng.randint(0, 9)))
+            if name != 'path' and rng.random() < .8:
+                k = rng.random()
+                if k < .5:
+                    num = str(rng.randrange(1000)) + rng.choice(['', '.', '.5', '.50', '.0', '.000'])
+                elif k < .7:
+                    num = '0.' + '0' * rng.randint(0, 25) + str(rng.randrange(1, 10 ** rng.randint(1, 17)))
+                elif k < .9:
+                    num = str(rng.randrange(1, 10 ** rng.randint(1, 18))) + '0' * rng.choice([0, 0, 3, 8, 20]) + \
+                        rng.choice(['', '.0', '.5', '.' + str(rng.randrange(10 ** 6))])
+                else:
+                    num = rng.choice(['1' + '0' * 309, '0.' + '0' * 330 + '1', '9' * 15 + '0' * 290, '0.' + '0' * 288 + '12',
+                                      '٣.٥', '۱۲', '1٣.٥0'])
+                text = rng.choice(['', '-', '', '00']) + num + text
+            if name == 'path' and conf and rng.random() < .6:
+                text = text + conf + (text[:2] + conf if rng.random() < .4 else '')
+            fid = '%s(%s)' % (name, conf)
+            fc = '~'
+            try:
+                h = FilterFactory.make_filter(name, conf)[0]
+                v, k, sel = h(text)
+                ans = '~' if v is None else '%s:%d' % (G.enc_val(v), k)
+                if name == 'float' and v is not None:
+                    fc = G.enc_val(v)
+                    self._bump('concrete-float-' + ('shipped-conv' if G.float_inexact(text[:k]) else 'exact'))
+            except Exception as e:
+                v, ans = None, 'err:' + G.err_name(e)
+            self._bump('concrete-' + name + ('-hit' if v is not None else '-miss'))
+            out.append(('router bfilter %s %s %s' % (core.hs(fid), core.hs(text), fc), ans,
+                        dict(kind='bfilter', fid=fid, text=text)))
         return out
 
     # ------------------------------------------------------------------
